@@ -249,6 +249,53 @@ fn run_cross_server(cx: &mut CaseCx, _case: &Value) {
 
 
 /// the output for (server, tag, input) does not depend on punctures of OTHER tags in the key's history
+/// punctures of tags the server never published do not touch the outputs of its published tags - however many
+fn run_unregistered_punctures(cx: &mut CaseCx, case: &Value) {
+  let tags: Vec<u8> = vec![0, 1, 2];
+  cx.entropy(905 + case["order"].as_u64().unwrap());
+  let mut server = pp::Server::new(tags.clone()).expect("server");
+  let input = b"unregistered punctures".to_vec();
+  let mut base: HashMap<u8, [u8; 32]> = HashMap::new();
+  for &t in &tags {
+    if let Ok((_, _, fin)) = exchange(&server, t, &input, &Blind::Fresh(0), false) {
+      base.insert(t, fin);
+    }
+  }
+  let orders: Vec<Vec<u8>> = vec![vec![200, 201, 202, 203, 204], vec![255, 3, 128, 64, 32, 16], vec![3, 4, 5], vec![200, 1, 201, 202]];
+  let order = orders[case["order"].as_u64().unwrap() as usize % orders.len()].clone();
+  let mut punctured: Vec<u8> = vec![];
+  for &p in &order {
+    if server.puncture(p).is_err() {
+      cx.viol("C12/puncture-failed", format!("puncture({}) failed", p), json!({"punctured_in_order": punctured}));
+      return;
+    }
+    punctured.push(p);
+    for &t in &tags {
+      if punctured.contains(&t) {
+        continue;
+      }
+      for verifiable in [false, true] {
+        cx.eval();
+        cx.nontrivial(fnv_str(&format!("{:?}|{}|{}", punctured, t, verifiable)));
+        match exchange(&server, t, &input, &Blind::Fresh(1), verifiable) {
+          Ok((_, _, fin)) => {
+            if Some(&fin) != base.get(&t) {
+              cx.viol("C12/output-depends-on-puncture-history/unregistered", format!("a server publishing the tags {:?}: the output for tag {} changed after {} punctures {:?} (tags it never published among them)", tags, t, punctured.len(), punctured), json!({"tag": t, "punctured_in_order": punctured, "verifiable": verifiable}));
+              return;
+            }
+            cx.count("stable_outputs", 1);
+          }
+          Err(e) => {
+            cx.viol("C12/exchange-failed/unregistered", format!("exchange for the live tag {} failed after puncturing {:?}: {}", t, punctured, e), json!({"tag": t, "punctured_in_order": punctured}));
+            return;
+          }
+        }
+      }
+    }
+  }
+  cx.outcome("stable across unregistered punctures");
+}
+
 fn run_puncture_stability(cx: &mut CaseCx, case: &Value) {
   let tags: Vec<u8> = vec![0, 1, 2, 6, 7, 64, 128, 192, 255];
   cx.entropy(900 + case["order"].as_u64().unwrap());
@@ -704,10 +751,17 @@ pub fn spec() -> PropSpec {
         rule: "clients and servers are separate PROCESSES: 12 fresh processes that each perform a different first operation (nothing, blind, finalize, eval, verifiable eval, verify, local randomness, share, report, adss share, GGM eval, field inversion) and then the same observation script under the same entropy: blinded requests, evaluations, unblinded and finalised outputs, proofs, public key and GGM values are identical in all of them",
         gen: |_| vec![json!({})],
         run: |cx, _| crate::probe::process_order_check(cx, "C12", &|l: &str| l.starts_with("blinded") || l.starts_with("evaluation") || l.starts_with("proof") || l.starts_with("public key") || l.starts_with("ggm")),
-        min_counts: &[("process_histories_agree", 11)],
+        min_counts: &[("process_histories_agree", 12)],
       },
       Check { name: "blinding-reuse", rule: "ONE blinded request and ONE blinding factor used 12 times per input (2 servers x 3 tags, then the same in reverse order; alternately with a proof): every unblinded answer finalises to the output of a fresh single-use exchange with that server and tag (3 inputs incl. empty)", gen: |_| vec![json!({})], run: run_blinding_reuse, min_counts: &[("reused_blinding_ok", 36)] },
       Check { name: "blinding-entropy", rule: "E-env: scripted 64-byte entropy answer for Client::blind (2 inputs): the same answer gives the same blinded request (also after another request in between); each of 48 single-bit variants in the first 16 bytes gives a new blinded request, pairwise distinct (a blinding factor drawn from fewer than 128 bits of entropy repeats after 2^k requests, far beyond any repetition count)", gen: |_| vec![json!({})], run: run_blinding_entropy, min_counts: &[("entropy_variants_distinct", 96), ("replayed_entropy_gives_same_request", 2)] },
+      Check {
+        name: "unregistered-punctures",
+        rule: "a server publishing the tags {0,1,2}: punctures of tags it never published (5 in a row; 6 spread over the tree; 3 neighbours; mixed with one published tag), more of them than it has published tags: after every puncture every live published tag still finalises to its original output, with and without proof",
+        gen: |_| (0..4u64).map(|o| json!({"order": o})).collect(),
+        run: run_unregistered_punctures,
+        min_counts: &[("stable_outputs", 80)],
+      },
       Check { name: "repeated-requests", rule: "300 consecutive requests for two alternating inputs on one thread under fresh entropy: all blinded points pairwise distinct", gen: |_| vec![json!({})], run: run_freshness, min_counts: &[("fresh_requests", 300)] },
       Check {
         name: "finalize-sensitivity",
